@@ -61,9 +61,18 @@ def h_hist(t, part):
                 invoked(tag, a)
         return cb
 
-    def emit_cb(e, ns, tag, data):
+    def emit_cb(e, ns, tag, data, skip_other=False):
         sid = live[(e, ns)]
-        w.call(w.s.emit('q', data, to=sid, namespace=ns, callback=mkcb(tag)))
+        other = [live[(e2, ns)] for e2 in ES if e2 != e and live[(e2, ns)] is not None]
+        if skip_other and other:
+            # addressed to the whole namespace minus everybody else: one recipient; nothing may be sent to, or registered
+            # for, the skipped clients
+            w.call(w.s.emit('q', data, namespace=ns, skip_sid=other, callback=mkcb(tag)))
+            for e2 in ES:
+                if e2 != e and w.take(e2):
+                    return Fail('ack:emit-reached-skipped-client', e2)
+        else:
+            w.call(w.s.emit('q', data, to=sid, namespace=ns, callback=mkcb(tag)))
         pk = [p for p in w.take(e)]
         if len(pk) != 1 or isinstance(pk[0], tuple) or pk[0].packet_type not in (packet.EVENT, packet.BINARY_EVENT):
             return Fail('ack:emit-shape', 'emit with callback produced %r' % ([worlds.pk(p) for p in pk],))
@@ -79,18 +88,22 @@ def h_hist(t, part):
 
     nontriv = 0
     # flattened operation alphabet (one draw per step)
-    OPS = [('emit', e, ns) for e in ES for ns in NSS] + \
+    OPS = [('emit', e, ns) for e in ES for ns in NSS] + [('emit-skip', 'e0', ns) for ns in NSS] + \
           [('ack', e, ns, k) for e in ES for ns in NSS for k in range(3)] + \
           [('disc', 'e0', ns) for ns in NSS] + [('conn', 'e0', ns) for ns in NSS]
     if 'first' in part:
         t.force([part['first']])
+    ACKS = [o for o in OPS if o[0] == 'ack']
     for step in range(part['n']):
-        o = OPS[t.choice(len(OPS))]
+        # the last operation of a quick history is an acknowledgement: after it only the epilogue observes, and the epilogue
+        # itself emits to and disconnects nobody
+        pool = ACKS if (part.get('last_is_ack') and step == part['n'] - 1 and step > 0) else OPS
+        o = pool[t.choice(len(pool))]
         op, e, ns = o[0], o[1], o[2]
-        if op == 'emit':
+        if op in ('emit', 'emit-skip'):
             if live[(e, ns)] is None:
                 continue
-            r = emit_cb(e, ns, 'cb%d' % step, None if step % 2 else t.int(-2, 2))
+            r = emit_cb(e, ns, 'cb%d' % step, None if step % 2 else t.int(-2, 2), skip_other=op == 'emit-skip')
             if r:
                 return r
         elif op == 'ack':
@@ -325,12 +338,12 @@ def h_call_async(t, part):
     return None
 
 
-NOPS = 4 + 12 + 2 + 2
+NOPS = 4 + 12 + 2 + 2 + 2
 
 
 def hist_parts(tier):
     n = 3 if tier == 'quick' else 4
-    return [{'async': a, 'n': n, 'first': f} for a in (False, True) for f in range(NOPS)]
+    return [{'async': a, 'n': n, 'first': f, 'last_is_ack': tier == 'quick'} for a in (False, True) for f in range(NOPS)]
 
 
 CHECKS = [
@@ -343,10 +356,10 @@ CHECKS = [
 META = dict(
     explanation='Real Server/AsyncServer + Manager/AsyncManager: emit(callback=), _handle_eio_message -> _handle_ack -> '
                 'trigger_callback, call(), against a reference table of outstanding (sid, id) -> callback.',
-    bounds={'quick': 'histories of 3 operations from {emit-with-callback, ACK/BINARY_ACK with symbolic id in 0..4 or '
+    bounds={'quick': 'histories of 3 operations (the third an acknowledgement) from {emit-with-callback to one client or to the namespace minus everybody else, ACK/BINARY_ACK with symbolic id in 0..4 or '
                      '10^20 or 0 through the text codec, namespace DISCONNECT, re-CONNECT} over 2 transports x 2 '
                      'namespaces; ACK arguments 0..2 symbolic ints; at most one callback invocation raises (symbolic index); then '
-                     'one emit-with-callback to every live client; '
+                     'one emit-with-callback to every live client and an acknowledgement of every callback still outstanding; '
                      'call(): one call with up to 2 environment actions during the wait (ACK with 0..2 args, '
                      'DISCONNECT, foreign ACK, nothing); asyncio: all miniloop schedules of caller || peer',
             'thorough': 'same with histories of 4 operations'},
